@@ -180,6 +180,10 @@ struct nv_pstate            /* nano::program::solver_state_t (include/nano/progr
   /* ghost, written only by the model of program_t::update: the (x, u, v) the residual fields (m_fx, m_eta, m_rdual, m_rprim,
    * m_rcent) were computed from, and the value it stored in m_fx (= normalised objective at res_x, times program.m_mufx) */
   uint64_t res_x, res_u, res_v; double fx_expect;
+  /* ghost provenance of that update call: was it a TRIAL point (bx + s * dx, bu + s * du, bv + s * dv) with ONE step s, from which
+   * base point (bx, bu, bv), in which outer iteration (m_iters at the call), and the how-manyth consecutive trial from that base in
+   * that iteration */
+  _Bool res_trial; uint64_t res_bx, res_bu, res_bv; int32_t res_iter; int64_t res_count;
 };
 struct nv_reducer { int32_t dummy; };          /* (anonymous namespace)::reducer_t: its constructor calls reduce(A, b) */
 struct nv_program           /* solver_t::program_t (src/program/solver.cpp) */
@@ -230,7 +234,23 @@ static struct nv_pstate nv_program_updated(const struct nv_program* p, struct nv
   s.m_fx = NV_UFMUL(NV_OBJN_ABS(p, x.ver), p->m_mufx); s.fx_expect = s.m_fx; s.m_eta = nv_nondet_double();
   s.m_rdual = nv_fresh(); s.m_rprim = nv_fresh(); s.m_rcent = nv_fresh();
   s.res_x = x.ver; s.res_u = u.ver; s.res_v = v.ver;
+  s.res_trial = 0; s.res_bx = 0; s.res_bu = 0; s.res_bv = 0; s.res_iter = s.m_iters; s.res_count = 0;
   if (nv_n_update < UINT64_MAX) nv_n_update = nv_n_update + 1;
+  return s;
+}
+/* program.update(X + sx * DX, U + su * DU, V + sv * DV, miu, state) (AST pattern recognised by spec.py:update_along_hook): the same
+ * values as the generic algebra gives the three sums, plus the provenance of the trial point */
+static struct nv_pstate nv_program_updated_along(const struct nv_program* p, struct nv_pstate s, struct nv_val X, double sx, struct nv_val DX,
+                                                 struct nv_val U, double su, struct nv_val DU, struct nv_val V, double sv, struct nv_val DV)
+{
+  _Bool  follows = s.res_trial && s.res_bx == X.ver && s.res_bu == U.ver && s.res_bv == V.ver && s.res_iter == s.m_iters;
+  int64_t before = s.res_count;
+  s = nv_program_updated(p, s, nv_e_add(X, nv_e_scale(sx, DX)), nv_e_add(U, nv_e_scale(su, DU)), nv_e_add(V, nv_e_scale(sv, DV)));
+  if (NV_SAME(sx, su) && NV_SAME(su, sv))
+  {
+    s.res_trial = 1; s.res_bx = X.ver; s.res_bu = U.ver; s.res_bv = V.ver;
+    s.res_count = (follows && before < 1000000) ? before + 1 : 1;
+  }
   return s;
 }
 /* reducer_t(A, b) = reduce(A, b) (src/program/util.cpp): removes linearly dependent equality rows -- A and b become other
@@ -398,6 +418,10 @@ __CPROVER_ensures(NV_RES_AT_RETURNED(NV_R))
 
 /* the residual fields and the reported objective were computed at the (x, u, v) the state holds; fx is objn(x) * mufx */
 #define NV_RES_AT_RETURNED(st) ((st).res_x == (st).m_x.ver && (st).res_u == (st).m_u.ver && (st).res_v == (st).m_v.ver && NV_SAME((st).m_fx, (st).fx_expect))
+/* ... or, only when the line search of the FINAL iteration was exhausted (max_lsearch_iters consecutive trials), at the last trial
+ * point (x + s du, u + s du, v + s dv) of that very line search, started from the (x, u, v) the state holds */
+#define NV_RES_AT_LAST_TRIAL(st, nmax) ((st).res_trial && (st).res_bx == (st).m_x.ver && (st).res_bu == (st).m_u.ver && (st).res_bv == (st).m_v.ver \
+  && (st).res_iter == (st).m_iters && (st).res_count == (nmax) && NV_SAME((st).m_fx, (st).fx_expect))
 /* solver_t::solve_with_inequality(program, x0, logger) */
 #define NV_START_INFEASIBLE (NV_MAXCOEFF(NV_SUB(NV_MUL(program->m_G.ver, x0->ver), program->m_h.ver)) >= 0.0)
 /* (x, u, v) are the three members of the last group of in-place advances: one common step, lying between 0 and a step
@@ -441,16 +465,25 @@ __CPROVER_loop_invariant(0 <= iter && iter <= max_lsearch_iters) \
 NV_SWI_LOOP3_FRAME \
 __CPROVER_decreases(max_lsearch_iters - iter)
 
-/* third target over the same body: what done() tested (eta, rdual, rprim) and the reported fx belong to the RETURNED (x, u, v)
- * ("the reported objective agrees with the objective at x"; "converged" certifies the returned point, not a trial point) */
+/* third target over the same body: what done() certified (eta, rdual, rprim) and the reported fx were computed by program_t::update
+ * (a) at the RETURNED (x, u, v), or (b) -- only when the line search of the final iteration was exhausted -- at the last trial point
+ * of that same line search started from the returned (x, u, v) (the property tolerates 1e-6; that this trial point is close,
+ * s <= beta^max_lsearch_iters, is numeric and not decided).  Anything older or unrelated is refuted. */
+/* no trial point of the current outer iteration has been evaluated yet */
+#define NV_NO_TRIAL_YET(st) (!(st).res_trial || (st).res_iter < (st).m_iters)
 #define NV_CONTRACT_solve_with_inequality_res NV_SWI_REQUIRES_ASSIGNS \
-__CPROVER_ensures(NV_R.m_status == NVE_solver_status_converged ==> NV_RES_AT_RETURNED(NV_R))
+__CPROVER_ensures(NV_R.m_status == NVE_solver_status_converged ==> (NV_RES_AT_RETURNED(NV_R) || NV_RES_AT_LAST_TRIAL(NV_R, nv_p_max_lsearch_iters)))
 #define NV_LOOP_solve_with_inequality_res_1 \
 __CPROVER_assigns(state, dx, du, dv, program->buf, nv_strict, nv_grp, nv_n_solve, nv_n_update) \
-__CPROVER_loop_invariant(0 <= state.m_iters && state.m_iters <= max_iters && NV_RES_AT_RETURNED(state)) \
+__CPROVER_loop_invariant(0 <= state.m_iters && state.m_iters <= max_iters && NV_RES_AT_RETURNED(state) && NV_NO_TRIAL_YET(state)) \
 __CPROVER_decreases(max_iters - state.m_iters)
 #define NV_LOOP_solve_with_inequality_res_2 NV_LOOP_solve_with_inequality_2
-#define NV_LOOP_solve_with_inequality_res_3 NV_LOOP_solve_with_inequality_3
+#define NV_LOOP_solve_with_inequality_res_3 \
+__CPROVER_assigns(iter, s, state, nv_n_update) \
+__CPROVER_loop_invariant(0 <= iter && iter <= max_lsearch_iters) \
+NV_SWI_LOOP3_FRAME \
+__CPROVER_loop_invariant(iter == 0 ? (NV_RES_AT_RETURNED(state) && NV_NO_TRIAL_YET(state)) : NV_RES_AT_LAST_TRIAL(state, iter)) \
+__CPROVER_decreases(max_lsearch_iters - iter)
 
 /* the returned point is x0 or was reached by advances that each passed the strict-feasibility test */
 #define NV_CONTRACT_solve_with_inequality_adv NV_SWI_REQUIRES_ASSIGNS \
